@@ -336,11 +336,134 @@ def run(chk):
             metas.append((stream, chunks, trace, kind))
 
     flush(force=True)
+    full_stack(chk)
     chk.assumptions += [
         'the session layer is replaced by a recorder for the framing runs (FramingProbe); the full ContactHandler is driven by C01/C04/C17',
         'extension-item lists are compared as opaque blobs (the receiver keeps them so); itemisation is proved for the independent reader (C07_ext_roundtrip)',
         'node IDs are generated as valid UTF-8',
     ]
+
+
+def full_stack(chk):
+    ''' 5. A pipelining peer against the *whole* endpoint (real ContactHandler, nothing replaced): the peer writes
+    its contact header, SESS_INIT and whole transfers back to back and the network cuts that stream anywhere, in
+    particular across the contact-header and SESS_INIT boundaries. After every read exactly the messages complete
+    so far must have been acted on — observable as the session state and one XFER_ACK per complete segment — and
+    the bundles delivered must be those of the stream. The same event lists are replayed through the model. '''
+    import tcpcl_sim as ts
+    import tcpcl_scen as sc
+    from props import c17
+    rng, tier = chk.rng, chk.tier
+    sims = []
+    for i in range(40 if tier == 'quick' else 600):
+        passive = rng.random() < 0.7
+        adv = c17.Adversary(rng, passive, {})
+        x, sim = adv.x, adv.sim
+        sim.start(x)
+        adv.drain()
+        nb = rng.choice([0, 1, 1, 2, 3])
+        msgs = [{'k': 'contact', 'flags': 0},
+                {'k': 'sess_init', 'keepalive': 0, 'seg_mru': 2 ** 64 - 1, 'xfer_mru': 2 ** 64 - 1, 'node': b'dtn://peer/'.hex(), 'ext': ''}]
+        bundles = []
+        for t in range(1, nb + 1):
+            data = bytes(rng.getrandbits(8) for _ in range(rng.choice([0, 1, 5, 20, 300])))
+            nseg = rng.choice([1, 1, 2, 3])
+            cuts = sorted(rng.sample(range(0, len(data) + 1), min(nseg - 1, len(data) + 1))) if nseg > 1 else []
+            parts = [data[a:b] for a, b in zip([0] + cuts, cuts + [len(data)])]
+            for j, part in enumerate(parts):
+                flags = (2 if j == 0 else 0) | (1 if j == len(parts) - 1 else 0)
+                ext = tu.ext_blob([(0, 1, len(data).to_bytes(8, 'big'))]).hex() if j == 0 else ''
+                msgs.append({'k': 'xfer_segment', 'flags': flags, 'tid': t, 'ext': ext, 'data': part.hex()})
+                if rng.random() < 0.2:
+                    msgs.append({'k': 'keepalive'})
+            bundles.append(data)
+        enc = [tu.rfc_encode(m) for m in msgs]
+        stream = b''.join(enc)
+        ends = []
+        pos = 0
+        for e in enc:
+            pos += len(e)
+            ends.append(pos)
+        n = len(stream)
+        c = rng.random()
+        if c < 0.2:
+            cuts = []
+        elif c < 0.5:
+            # around the contact-header / SESS_INIT boundaries
+            cuts = sorted(set(k for k in (rng.choice([5, 6, 7]), ends[1] + rng.choice([-1, 0, 1])) if 0 < k < n))
+        else:
+            cuts = sorted(rng.sample(range(1, n), min(rng.choice([1, 2, 4, 8]), n - 1))) if n > 1 else []
+        chunks = [ch for ch in split(stream, cuts) for ch in (split(ch, list(range(ts.CHUNK, len(ch), ts.CHUNK))) if len(ch) > ts.CHUNK else [ch])]
+        chk.case({'full_stack': True, 'passive': passive, 'n': n, 'cuts': cuts[:12], 'bundles': [len(b) for b in bundles]})
+        chk.count('full-stack')
+        fed = 0
+        bad = None
+        drain_between = rng.random() < 0.5
+        for ch in chunks:
+            if x.closed():
+                break
+            sim.rx_bytes(x, ch)
+            fed += len(ch)
+            if x.obs[-1].get('escaped'):
+                bad = ('C07:full-stack-escape-%s' % x.obs[-1]['escaped'], 'exception %s escapes the read callback of the whole endpoint' % x.obs[-1]['escaped'])
+                break
+            if drain_between:
+                adv.drain()
+            complete = [m for m, e in zip(msgs, ends) if e <= fed]
+            want_state = 'established' if len(complete) >= 2 else ('session-negotiating' if len(complete) >= 1 else 'contact-negotiating')
+            if not x.closed() and str(x.h._state) != want_state and bad is None:
+                bad = ('C07:full-stack-state-after-%d-messages' % min(len(complete), 2),
+                       'after %d of %d octets (%d complete messages) the session state is %s, expected %s' % (fed, n, len(complete), x.h._state, want_state))
+        adv.drain()
+        if bad is None and not x.closed():
+            nseg = sum(1 for m in msgs if m['k'] == 'xfer_segment')
+            acks = [m for m in adv.frames() if m['k'] == 'xfer_ack']
+            if len(acks) != nseg:
+                bad = ('C07:full-stack-acks-%s' % ('missing' if len(acks) < nseg else 'extra'),
+                       'the stream holds %d complete segments, the endpoint wrote %d XFER_ACKs' % (nseg, len(acks)))
+            else:
+                got = []
+                for tid in [int(q) for q in x.h.recv_bundle_get_queue()]:
+                    got.append(bytes(x.h.recv_bundle_pop_data(str(tid))))
+                if got != bundles:
+                    bad = ('C07:full-stack-delivered-differs', 'bundles delivered %s differ from those of the stream %s' % ([len(g) for g in got], [len(b) for b in bundles]))
+        elif bad is None and x.closed():
+            bad = ('C07:full-stack-closed', 'the endpoint closed the connection on a valid pipelined stream')
+        if bad:
+            chk.violation(bad[0], bad[1], {'passive': passive, 'chunks': [c2.hex() for c2 in chunks], 'events': x.events, 'cfg': x.model_cfg()})
+        sims.append((sim, 'full-stack %d' % i))
+        if len(sims) >= 40:
+            _compare_one_sided(chk, sims, sc)
+            sims = []
+    _compare_one_sided(chk, sims, sc)
+
+
+def _compare_one_sided(chk, sims, sc):
+    ''' only the endpoint under test has events (the peer is scripted) '''
+    import tcpcl_sim as ts
+    reqs, owners = [], []
+    for sim, label in sims:
+        for ep in sim.eps():
+            if ep.events:
+                reqs.append(ts.model_requests(ep))
+                owners.append((ep, label))
+    if not reqs:
+        return
+    try:
+        outs = chk.driver(reqs)
+    except Exception as err:
+        chk.corr_break('model driver unavailable: %s' % str(err)[:300], {})
+        return
+    for out, (ep, label) in zip(outs, owners):
+        if 'trace' not in out:
+            chk.corr_break('model rejected the event list: %s' % out, {'label': label})
+            continue
+        d = ts.diff_trace(ep, out['trace'])
+        chk.cov['traces_validated_against_impl'] = chk.cov.get('traces_validated_against_impl', 0) + 1
+        if d is not None:
+            i, det = d
+            chk.corr_break('endpoint %s: model and implementation differ at event %d (%s)' % (ep.name, i, json.dumps(ep.events[i])[:80]),
+                           {'label': label, 'cfg': ep.model_cfg(), 'events': ep.events[:i + 1], 'diff': det})
 
 
 def replay(chk, path):
